@@ -53,6 +53,9 @@ type Task struct {
 	fn         func(t *Task)
 	Result     any
 	Steps      int
+	// Cancel, when set, is the client abandoning the request; Cancelled records that it did.
+	Cancel    func()
+	Cancelled bool
 }
 
 // Park is a thread parked at a yield point.
@@ -81,6 +84,9 @@ type SchedCfg struct {
 	// PreStep runs with everything parked, before a thread is chosen; returning true means it
 	// changed the world (crash, clock jump, new tasks) and the loop must re-evaluate.
 	PreStep func(s *Sched, parked []*Park) bool
+	// Action is like PreStep but runs with the hooks live (not in direct mode): for environment events that
+	// wake threads of the system under test, such as a client giving up on its request.
+	Action func(s *Sched, parked []*Park) bool
 	// Invariant runs with everything parked after every step.
 	Invariant func(s *Sched)
 	// StopOnViolation ends the run as soon as a violation has been recorded.
@@ -388,6 +394,9 @@ func (s *Sched) Run() string {
 			if changed {
 				continue
 			}
+		}
+		if s.cfg.Action != nil && s.cfg.Action(s, parked) {
+			continue
 		}
 		var enabled []*Park
 		for _, p := range parked {
